@@ -169,4 +169,9 @@ def recoverMask (N : Nat) (α0 d η : Nat → F) (dL dR : Nat → Nat → F) (y 
     (d1 : Nat → F) (k : Nat) : F :=
   ((d1 k - η k - e * d k) * (powF e 2)⁻¹ - α0 k - roundNonceSum dL dR es 0 k) * (powF z 2 * (powF y N * y))⁻¹
 end
+
+/-- `Scalar::random_not_zero` (src/protocols/scalar_protocol.rs:23-31) on the stream of draws: redraw while zero -/
+def firstNonZero {F : Type} [Zero F] [DecidableEq F] : List F → Option F
+  | [] => none
+  | x :: xs => if x = 0 then firstNonZero xs else some x
 end Model
